@@ -110,6 +110,10 @@ func (c *coalescing) Run(ctx context.Context, ch chan<- struct{}) error {
 
 	// Prevent wg race condition on Close and Run.
 	c.lock.Lock()
+	if c.closed.Load() {
+		c.lock.Unlock()
+		return nil
+	}
 	c.wg.Add(1)
 	c.lock.Unlock()
 	defer c.wg.Done()
@@ -225,6 +229,9 @@ func (c *coalescing) reset() {
 func (c *coalescing) Add() {
 	c.lock.Lock()
 	defer c.lock.Unlock()
+	if c.closed.Load() {
+		return
+	}
 	c.pendingEvents++
 	c.wg.Add(1)
 	go func() {
@@ -237,15 +244,15 @@ func (c *coalescing) Add() {
 }
 
 func (c *coalescing) Close() {
-	defer func() {
-		// Prevent wg race condition on Close and Run.
-		c.lock.Lock()
-		c.wg.Wait()
-		c.lock.Unlock()
-	}()
+	// Prevent wg race condition on Close and Run: closed is set under the lock,
+	// so that once it is released no Run or Add will add to the wait group any
+	// more. Do not wait while holding the lock: the run loop needs it to exit.
+	c.lock.Lock()
 	if c.closed.CompareAndSwap(false, true) {
 		close(c.closeCh)
 	}
+	c.lock.Unlock()
+	c.wg.Wait()
 }
 
 var _ RateLimiter = (*coalescing)(nil)
